@@ -85,7 +85,9 @@ def check_property(prop, tier):
     ]
     # histories breadth-first up to 4/5 slots + every ordered forest up to 7/8 nodes built by its canonical path
     # + on every forest up to 6/7 nodes: remove / remove_subtree of every node followed by recycling of all freed slots
-    bundle_cfgs = ["Gen_s4g1", "GenShapes_k7", "GenRecycled_k6"] if tier == "quick" else ["Gen_s4g2", "Gen_s5g0", "GenShapes_k8", "GenRecycled_k7"]
+    # + every forest up to 6/7 nodes with its roots cut into several top-level chains
+    bundle_cfgs = (["Gen_s4g1", "GenShapes_k7", "GenRecycled_k6", "GenShapesMulti_k6"] if tier == "quick"
+                   else ["Gen_s4g2", "Gen_s5g0", "GenShapes_k8", "GenRecycled_k7", "GenShapesMulti_k7"])
 
     if prop in OUT_PROPS or prop in ("C16",):
         for m in (MC_QUICK if tier == "quick" else MC_THOROUGH):
@@ -464,6 +466,7 @@ def setup():
     ensure_bundles("Gen_s4g1")
     ensure_bundles("GenShapes_k7")
     ensure_bundles("GenRecycled_k6")
+    ensure_bundles("GenShapesMulti_k6")
     ensure_bundles("GenPrint_s4")
     ensure_bundles("GenPrintShapes_k6")
     ensure_bundles("TreeMacro7")
